@@ -58,6 +58,11 @@ static uint64_t vf_rec(uint64_t v) { if (vf_trace_n < VF_MAXTRACE) VF_TRACE[vf_t
 #define VF_WITNESS(msg) __CPROVER_assert(0, "WITNESS " msg)
 #define VF_ND(kind) nondet_##kind()
 #endif
+#ifdef VF_NATIVE
+#define __VF_SAME_OBJECT(p, arr) ((const char *)(p) >= (const char *)(arr) && (const char *)(p) < (const char *)(arr) + sizeof(arr))
+#else
+#define __VF_SAME_OBJECT(p, arr) __CPROVER_same_object((p), (arr))
+#endif
 /* every symbolic input of a harness is drawn through these, in a fixed order */
 static unsigned char vf_u8(void)  { return (unsigned char)vf_rec(VF_ND(uchar)); }
 static unsigned vf_u32(void)      { return (unsigned)vf_rec(VF_ND(uint)); }
@@ -136,14 +141,16 @@ static int out_fail_armed;           /* C11: device refuses writes from now on *
 static int out_fail_enabled;         /* C11 harness turns this on */
 
 static unsigned char LOGK[MAXEV];
-static const char *LOGP[MAXEV];
 static unsigned LOGV[MAXEV];
+/* TOKEN events carry an integer code computed by the harness (offset of the string in the
+   generated token pool, or a content code) -- no pointer arrays (cost, see DESIGN 3). */
+static unsigned vf_token_code(const char *s);
 static unsigned nlog;
 static int log_overflow;
 
 static void emit(unsigned char kind, const char *ptr, unsigned val)
 {
-  if (nlog < MAXEV) { LOGK[nlog] = kind; LOGP[nlog] = ptr; LOGV[nlog] = val; nlog++; }
+  (void)ptr; if (nlog < MAXEV) { LOGK[nlog] = kind; LOGV[nlog] = val; nlog++; }
   else log_overflow = 1;
 }
 
@@ -208,7 +215,7 @@ int fputs(const char *s, FILE *f)
   if (f == stderr) { diag_emitted = 1; return 1; }
   if (f != stdout) return 1;
   if (out_fails()) return EOF;
-  emit(EV_TOKEN, s, 0);
+  emit(EV_TOKEN, 0, vf_token_code(s));
   return 1;
 }
 int fputc(int c, FILE *f)
